@@ -54,7 +54,7 @@ static u8_t *parse(std::vector<std::string> args)
   return get_v_opt((int)keep.size(), argv.data());
 }
 
-static const int NOPS = 31;
+static const int NOPS = 34;
 static const char *opname[NOPS] = {"encA(T1,n20,cbc,sha1)", "encB(T2,n70,ctr,md5)", "encC(T4,n100,ofb,sha256)", "decA(valid)", "decB(wrong key)", "decB(tampered)",
                                    "dec(garbage)", "dec(mode byte 9)", "verB(valid)", "verB(tampered)", "parse(-V)", "parse(-x unknown)", "parse(-dex aborts in cluster)",
                                    "parse(-e -i F -o O -k K --cmode 2)", "decB(valid,T2)", "decB(valid) into an output that cannot be written (/dev/full)",
@@ -62,7 +62,9 @@ static const char *opname[NOPS] = {"encA(T1,n20,cbc,sha1)", "encB(T2,n70,ctr,md5
                                    "decC(valid,T4,ofb,sha256)", "decC(wrong key)", "decC(tampered)", "verC(valid)", "verC(wrong key)", "verC(tampered)",
                                    "verA(valid,sha1)", "verA(wrong key)", "decA(wrong key)", "decA(tampered)", "verB(wrong key)", "ver(garbage)",
                                    // a runner built with the DEFAULT arguments (default_settings, THREAD_NUM): what a caller that does not pass its own Settings gets
-                                   "encD(default settings and threads, n70)", "decC(valid) on a default-built runner", "verC(valid) on a default-built runner"};
+                                   "encD(default settings and threads, n70)", "decC(valid) on a default-built runner", "verC(valid) on a default-built runner",
+                                   // a wrong key that is the RIGHT key of another file with another hash mode: anything cached per key or per hash mode across operations
+                                   "verA(with keyB)", "decB(with keyC)", "verC(with keyA)"};
 static void do_op(int op, bool &ret, std::vector<u8_t> &out)
 {
   OpResult r;
@@ -189,6 +191,15 @@ static void do_op(int op, bool &ret, std::vector<u8_t> &out)
     r.out = out.bytes();
     break;
   }
+  case 31:
+    r = wv_verify(fx.fileA, fx.keyB, 1);
+    break;
+  case 32:
+    r = wv_decrypt(fx.fileB, fx.keyC, 2);
+    break;
+  case 33:
+    r = wv_verify(fx.fileC, fx.keyA, 4);
+    break;
   case 29:
   case 30:
   {
